@@ -12,6 +12,7 @@ import (
 	"log"
 	"math"
 	"strings"
+	"sync"
 	"sync/atomic"
 	"testing"
 	"time"
@@ -40,7 +41,9 @@ func TestMain(m *testing.M) {
 		Rule: "rapid-generated valid files: PLY (ascii/LE/BE; point cloud, mesh, mesh with texcoords, quads) from the independent reference encoder and from ply.Write; binary STL; SPZ (v1/v2, SH 0..3, arbitrary packed bytes, gzip'd by the harness); .splat; PTS (xyz, xyz+i, xyz+i+rgb); 1..6 elements, trailing records carry non-zero values so fabricated zeros cannot coincide with data. " +
 			"For each file EVERY cut position 0..len-1 is decoded (ascii bodies: every position that does not split a number, i.e. every token and line boundary) - exhaustive per file. " +
 			"Outcome must be: an error; or a result bit-equal to the decode of the complete file; or (.splat) exactly the first floor(k/32) records; or a value-equal subset of the full decode (fewer attributes/elements, every returned value identical - counted as its own class). A runtime-error panic, a value differing from the full decode, more elements than the full decode, or a call that does not return within 130 s is a violation. " +
-			"evaluations = cut points decoded; non-trivial = cut strictly inside the body (after the header); distinct = (file hash, cut).",
+			"evaluations = cut points decoded; non-trivial = cut strictly inside the body (after the header); distinct = (file hash, cut). " +
+			"Sub-check stl-count-sweep (exhaustive along the size axis): for EVERY triangle count 1..2000 (quick) / 1..45 000 (thorough) one harness-encoded binary STL with non-zero vertex values, decoded at three strict prefixes " +
+			"(1 byte short, 25 bytes short, one position in the last tenth derived from the count); same judge, with the recipe itself as the content of the complete file; the complete file must decode to the recipe (checked for every count up to 2000 and every 53rd above).",
 		Assumptions: []string{
 			"a cut inside a number of an ascii body leaves a syntactically complete, different file and is outside the quantifier",
 			"termination is decided as 'returns within 60 s' for inputs < 8 KB (normal decode: microseconds; a first 10 s limit only raises a suspicion, because a loaded machine can starve a goroutine that long)",
@@ -410,6 +413,12 @@ func runCase(c Case, o *vh.Obs) *vh.Failure {
 
 // judgeCut decodes the k-byte prefix and classifies the outcome against the decode of the complete file.
 func judgeCut(f file, full *modeling.Mesh, k int, label string, _ int, o *vh.Obs) *vh.Failure {
+	return judgeCutLazy(f, func() *modeling.Mesh { return full }, k, label, o)
+}
+
+// judgeCutLazy is judgeCut with the content of the complete file given as a function, which is only
+// called when the prefix decodes without an error (the count sweep builds it from its recipe).
+func judgeCutLazy(f file, full func() *modeling.Mesh, k int, label string, o *vh.Obs) *vh.Failure {
 	region := "header"
 	if k >= f.bodyStart {
 		region = "body"
@@ -432,7 +441,7 @@ func judgeCut(f file, full *modeling.Mesh, k int, label string, _ int, o *vh.Obs
 			}
 			return nil
 		}
-		rel := relate(r.m, full)
+		rel := relate(r.m, full())
 		if rel != "equal" && rel != "subset" {
 			return vh.Failf("fabricated/"+label, "prefix %d/%d bytes: %s", k, len(f.data), rel)
 		}
@@ -445,7 +454,7 @@ func judgeCut(f file, full *modeling.Mesh, k int, label string, _ int, o *vh.Obs
 	case r.m == nil:
 		return vh.Failf("nil-without-error/"+label, "prefix %d/%d: nil mesh and nil error", k, len(f.data))
 	default:
-		rel := relate(r.m, full)
+		rel := relate(r.m, full())
 		switch rel {
 		case "equal":
 			o.Class(label + "/ok-equal-full")
@@ -590,6 +599,134 @@ func runLarge(c Case, o *vh.Obs) *vh.Failure {
 	return nil
 }
 
+// ---------------------------------------------------------------- binary STL, every triangle count
+
+// A reader that takes the records in blocks of K can skip its last block exactly when the count is
+// a multiple of K and then hands out zero-filled placeholders for whatever the file lacks; K is an
+// implementation detail, so sampled counts (large-files) do not meet it. The sweep builds, for
+// EVERY triangle count 1..N (N = 2000 quick, 45 000 thorough), a binary STL with the harness's own
+// encoder (Case{Kind: "stl-sweep", Count: n}: the replay file is the recipe) and decodes three
+// strict prefixes: one byte short, 25 bytes short (half of the last record) and a position inside
+// the last tenth of the file derived from n. The judge is judgeCut's; "the complete file" is the
+// recipe itself, not the library's decode of it, so a reader that returns the same placeholders for
+// the complete file and for the prefix is not excused.
+func sweepN() int {
+	if vh.Tier == "thorough" {
+		return 45000
+	}
+	return 2000
+}
+
+func sweepCases() []Case {
+	cs := make([]Case, 0, sweepN())
+	for n := 1; n <= sweepN(); n++ {
+		cs = append(cs, Case{Kind: "stl-sweep", Count: n})
+	}
+	return cs
+}
+
+// sweepVal: component k (0..8) of record i, a non-zero multiple of 1/8 (exact in float32).
+func sweepVal(i, k int) float64 { return float64((i*7+k*3)%1000+1) / 8 }
+
+var (
+	sweepMu   sync.Mutex
+	sweepBody []byte // records 0.. of the recipe (they do not depend on the count): grown on demand
+)
+
+func sweepFile(n int) []byte {
+	sweepMu.Lock()
+	defer sweepMu.Unlock()
+	for i := len(sweepBody) / 50; i < n; i++ {
+		sweepBody = append(sweepBody, make([]byte, 12)...) // no stored normal
+		for k := 0; k < 9; k++ {
+			sweepBody = binary.LittleEndian.AppendUint32(sweepBody, math.Float32bits(float32(sweepVal(i, k))))
+		}
+		sweepBody = binary.LittleEndian.AppendUint16(sweepBody, uint16(i%65535+1))
+	}
+	b := make([]byte, 80, 84+50*n)
+	copy(b, "c14 count sweep")
+	b = binary.LittleEndian.AppendUint32(b, uint32(n))
+	return append(b, sweepBody[:50*n]...)
+}
+
+// sweepMesh: what the complete file of n records holds (3n vertices, positions only).
+func sweepMesh(n int) *modeling.Mesh {
+	pos := make([]vector3.Float64, 3*n)
+	idx := make([]int, 3*n)
+	for i := 0; i < n; i++ {
+		for c := 0; c < 3; c++ {
+			pos[3*i+c] = vector3.New(sweepVal(i, 3*c), sweepVal(i, 3*c+1), sweepVal(i, 3*c+2))
+			idx[3*i+c] = 3*i + c
+		}
+	}
+	m := modeling.NewTriangleMesh(idx).SetFloat3Attribute(modeling.PositionAttribute, pos)
+	return &m
+}
+
+var sweepBounds = []int{2000, 10000, 20000, 30000, 45000}
+
+func runSweep(c Case, o *vh.Obs) *vh.Failure {
+	n := c.Count
+	if c.Kind != "stl-sweep" || n < 1 || n > 200000 || c.Reader < 0 || c.Reader >= rdr.Modes {
+		return nil
+	}
+	data := sweepFile(n)
+	f := file{data: data, bodyStart: 84, dec: func(b []byte) (*modeling.Mesh, error) { return stl.ReadMesh(rdr.For(c.Reader, b)) }}
+	var fullMesh *modeling.Mesh
+	full := func() *modeling.Mesh {
+		if fullMesh == nil {
+			fullMesh = sweepMesh(n)
+		}
+		return fullMesh
+	}
+	l := len(data)
+	h := uint32(n) * 2654435761
+	h ^= h >> 15
+	cuts := []int{l - 1, l - 25, l - 1 - int(h%uint32(l/10))}
+	done := 0
+	for i, k := range cuts {
+		if (i > 0 && k == cuts[0]) || (i > 1 && k == cuts[1]) {
+			continue
+		}
+		done++
+		if fl := judgeCutLazy(f, full, k, "stl", o); fl != nil {
+			fl.Msg = fmt.Sprintf("binary STL of %d triangles (%d bytes, harness-encoded recipe): %s", n, l, fl.Msg)
+			return fl
+		}
+	}
+	o.Evals(done)
+	o.NonTrivialSubs(done)
+	lo := 1
+	for _, hi := range sweepBounds {
+		if n <= hi {
+			o.Class(fmt.Sprintf("sweep/stl/triangles-%d..%d", lo, hi))
+			break
+		}
+		lo = hi + 1
+	}
+	if n > sweepBounds[len(sweepBounds)-1] {
+		o.Class(fmt.Sprintf("sweep/stl/triangles-above-%d", sweepBounds[len(sweepBounds)-1]))
+	}
+	// guard against a vacuous sweep (a recipe the decoder rejects as a whole): the complete file must
+	// decode to exactly the recipe. Decoding and comparing a complete file costs about a hundred
+	// times as much as three rejected prefixes, so above 2000 triangles every 53rd count is checked
+	// (a prime: those counts spread evenly over the shards).
+	if n <= 2000 || n%53 == 0 {
+		r, returned := decodeWatched(f.dec, data)
+		if !returned {
+			return vh.Failf("hang/stl/complete-file", "decoding the complete %d-byte file does not terminate", l)
+		}
+		if r.p != nil || r.err != nil || r.m == nil {
+			return vh.Failf("sweep-complete-file-rejected/stl", "the complete binary STL of %d triangles (harness-encoded recipe) does not decode: %v %v", n, r.err, r.p)
+		}
+		if rel := relate(r.m, full()); rel != "equal" {
+			return vh.Failf("sweep-complete-file-differs/stl", "the complete binary STL of %d triangles (harness-encoded recipe) decodes without error but not to its content: %s", n, rel)
+		}
+		o.Count("complete-file-decoded-equal-to-recipe", 1)
+	}
+	return nil
+}
+
 func TestC14(t *testing.T) {
 	vh.Drive(t, vh.Spec[Case]{Name: "large-files", Quick: 640, Thorough: 24000, Gen: genLarge, Run: runLarge,
 		Sample: func(c Case) any {
@@ -604,6 +741,9 @@ func TestC14(t *testing.T) {
 			}
 			return map[string]any{"kind": c.Kind, "file_bytes": len(f.data), "body_start": f.bodyStart, "file_prefix": string(clip(f.data))[:min(200, len(clip(f.data)))]}
 		}})
+	vh.Enumerate(t, vh.Spec[Case]{Name: "stl-count-sweep", Run: runSweep,
+		Key:    func(c Case) string { return fmt.Sprint(c.Kind, c.Count, c.Reader) },
+		Sample: func(c Case) any { return map[string]any{"kind": c.Kind, "count": c.Count, "reader": c.Reader} }}, sweepCases())
 }
 
 func FuzzC14(f *testing.F) {
